@@ -6,10 +6,15 @@ package main
 import (
 	"encoding/json"
 	"fmt"
+	"github.com/zerx-lab/wordZero/pkg/document"
+	"github.com/zerx-lab/wordZero/pkg/markdown"
+	"os"
+	"path/filepath"
 	"sort"
 	"strconv"
 	"strings"
 	"sync"
+	"verif/harness/internal/pkgmodel"
 
 	mathjax "github.com/litao91/goldmark-mathjax"
 	"github.com/yuin/goldmark"
@@ -926,6 +931,39 @@ func c19JudgeAgain(md string, o c19Opt, exp *c19Expect) string {
 	return c19SigList(c19Judge(exp, c19Observe(pk)))
 }
 
+// c19JudgeFile converts the Markdown through Converter.ConvertFile and judges the .docx it wrote.
+func c19JudgeFile(md string, o c19Opt, exp *c19Expect) string {
+	dir, err := os.MkdirTemp("", "vcheck-c19-")
+	if err != nil {
+		return ""
+	}
+	defer os.RemoveAll(dir)
+	in, out := filepath.Join(dir, "in.md"), filepath.Join(dir, "out.docx")
+	if os.WriteFile(in, []byte(md), 0o644) != nil {
+		return ""
+	}
+	document.VerifResetGlobals()
+	var cerr error
+	if p := guard(func() {
+		opts := o.mk()
+		cerr = markdown.NewConverter(opts).ConvertFile(in, out, opts)
+	}); p != "" {
+		return "panic|" + panicClass(p)
+	}
+	if cerr != nil {
+		return "error|ConvertFile"
+	}
+	b, err := os.ReadFile(out)
+	if err != nil {
+		return "error|no-output-file"
+	}
+	pk := pkgmodel.Read(b)
+	if len(pk.CheckWellFormed()) > 0 || pk.Body() == nil {
+		return "save"
+	}
+	return c19SigList(c19Judge(exp, c19Observe(pk)))
+}
+
 func c19FidWorker(c *shard.Ctx) {
 	var a c19FidArgs
 	json.Unmarshal(c.Args, &a)
@@ -1014,6 +1052,19 @@ func c19FidWorker(c *shard.Ctx) {
 						first := strings.SplitN(strings.Fields(sig)[0], "|", 2)[0]
 						c.P.Outcome("crlf-differs")
 						report(rep.Violation{Sig: "line-endings|crlf|" + first, Clause: "line-endings", What: "with LF line endings the conversion is faithful, with CR LF line endings it is not: " + sig})
+					}
+				}
+			}
+			if len(vs) == 0 && o.isDefault() {
+				// the same Markdown through the file-based entry point (ConvertFile writes the .docx itself)
+				c.P.Evals++
+				c.P.Transitions++
+				c.P.Add("fidelity_conversions_file_entry", 1)
+				if sig := c19JudgeFile(md, o, exp); sig != "" {
+					if again := c19JudgeFile(md, o, exp); again == sig {
+						first := strings.SplitN(strings.Fields(sig)[0], "|", 2)[0]
+						c.P.Outcome("file-entry-differs")
+						report(rep.Violation{Sig: "entry-point|ConvertFile|" + first, Clause: "entry-point", What: "ConvertString/ConvertBytes is faithful, ConvertFile of the same Markdown is not: " + sig})
 					}
 				}
 			}
